@@ -34,6 +34,7 @@ class ServerDriver:
         self.coro = coro and mode == 'async'
         self.eio_packet = eio_packet
         self.trace = []
+        self.open_sessions = {}
         self.log = logging.getLogger('verif.null')
         self.log.addHandler(logging.NullHandler())
         self.log.propagate = False
@@ -425,6 +426,26 @@ class ServerDriver:
                         async with sio.session(sid_, namespace=ns_) as b_:
                             b_[k2] = _copy(v2)
                         long_[k0] = _copy(v0)
+            elif k == 'session_open':
+                # a session() block that STAYS OPEN across later operations of the history: on entry the dict is
+                # replaced by `new` (in place, i.e. stored at once); model: save_session(sid, new)
+                _, sid_, ns_, new_, tag_ = o
+                cm = sio.session(sid_, namespace=ns_)
+                d_ = (cm.__enter__() if self.mode == 'sync' else await cm.__aenter__())
+                d_.clear()
+                d_.update(_copy(new_))
+                self.open_sessions[tag_] = cm
+            elif k == 'session_close':
+                # leaving the block opened by session_open (same sid, same dict); model: save_session(sid, new)
+                _, sid_, ns_, new_, tag_ = o
+                cm = self.open_sessions.pop(tag_, None)
+                if cm is None:
+                    # the block could not be entered: what leaving would have done, done directly
+                    await aw(sio.save_session(sid_, _copy(new_), namespace=ns_))
+                elif self.mode == 'sync':
+                    cm.__exit__(None, None, None)
+                else:
+                    await cm.__aexit__(None, None, None)
             elif k == 'session_replace':
                 # with session(sid) as s: s.clear(); s.update(new)  -- keys are REMOVED inside the block
                 if self.mode == 'sync':
